@@ -230,12 +230,14 @@ class E1(Component):
                     if (i, i) not in got:
                         ctx.violation(drop_sig(ftype),
                                       "%s.filter_tables does not list the pair with sizes/overlap"
-                                      " %r (common tokens rarest-last)" % (desc, triples[i]))
+                                      " %r (common tokens rarest-last)" % (desc, triples[i]),
+                                      key=["E1", "tables", ftype, m, repr(t), list(triples[i])])
             for i in musts:
                 if ctx.lib(f.filter_pair, lv[i], rv[i]):
                     ctx.violation(drop_sig(ftype),
                                   "%s.filter_pair drops the pair with sizes/overlap %r"
-                                  % (desc, triples[i]))
+                                  % (desc, triples[i]),
+                                  key=["E1", "pair", ftype, m, repr(t), list(triples[i])])
         ctx.nontrivial(True)
         ctx.label("E1:" + m)
 
@@ -306,7 +308,9 @@ class E2(Component):
                                   "%s(%s, %r).filter_tables does not list arrangement %s "
                                   "(x/y/both by token order, x on the %s)"
                                   % (CLS[ftype], m, t, a,
-                                     "left" if case["orient"] == "xl" else "right"))
+                                     "left" if case["orient"] == "xl" else "right"),
+                                  key=["E2", ftype, m, repr(t), a, case["orient"],
+                                       case["filler"]])
         ctx.nontrivial(True)
         ctx.label("E2:" + m)
 
@@ -379,11 +383,14 @@ class E3(Component):
                     ctx.violation(drop_sig(ftype),
                                   "%s.filter_tables (cross table of all strings over %r up to "
                                   "length %d) does not list (%r, %r)"
-                                  % (desc, case["alphabet"], case["L"], a, b))
+                                  % (desc, case["alphabet"], case["L"], a, b),
+                                  key=["E3", "tables", ftype, case["alphabet"], case["L"],
+                                       case["q"], case["padding"], t, a, b])
                 if ctx.lib(f.filter_pair, a, b):
                     ctx.violation(drop_sig(ftype),
                                   "%s.filter_pair(%r, %r) drops a pair at distance <= %d that "
-                                  "shares a q-gram" % (desc, a, b, t))
+                                  "shares a q-gram" % (desc, a, b, t),
+                                  key=["E3", "pair", ftype, case["q"], case["padding"], t, a, b])
         ctx.nontrivial(True)
         ctx.label("E3:" + ftype)
 
@@ -449,10 +456,12 @@ class Dense(Component):
                     ctx.violation(drop_sig(ft),
                                   "%s.filter_tables n_jobs=%d on the dense tables does not list "
                                   "(%r, %r) with sizes/overlap %r"
-                                  % (desc, case["n_jobs"], vals[i], vals[j], (a, b, o)))
+                                  % (desc, case["n_jobs"], vals[i], vals[j], (a, b, o)),
+                                  key=["dense", "tables", ft, m, repr(t), U, K, i, j])
                 if (i + j) % 7 == 0 and ctx.lib(f.filter_pair, vals[i], vals[j]):
                     ctx.violation(drop_sig(ft), "%s.filter_pair(%r, %r) drops a qualifying pair "
-                                  "(sizes/overlap %r)" % (desc, vals[i], vals[j], (a, b, o)))
+                                  "(sizes/overlap %r)" % (desc, vals[i], vals[j], (a, b, o)),
+                                  key=["dense", "pair", ft, m, repr(t), U, K, i, j])
         ctx.nontrivial(len(got) < n * n)
         ctx.label("dense:" + ft)
 
